@@ -530,6 +530,9 @@ def write_evidence(prop, tier, seed, agg, wall, extra=None, violations=0):
             "files": per,
             "reached_total": sum(v["reached"] for v in per.values()),
         }
+    cov["probes_expected"] = list(prop.EXPECTED_PROBES)
+    cov["probes_stuck_at_zero"] = [x for x in prop.EXPECTED_PROBES
+                                   if not agg.probes.get(x)]
     if extra:
         cov.update(extra)
     ev = {
